@@ -40,6 +40,9 @@ pub fn u64_to_unit(v: u64) -> f64 {
 
 pub struct World {
     pub cases: Vec<Case>,
+    /// same edge counts as cases[0], cases[1] but different weights: used by the Rebuild operation
+    pub alt_cases: Vec<Case>,
+    pub alt_kins: Vec<oracle::kin::Kin>,
     pub kins: Vec<oracle::kin::Kin>,
     /// two points per sampler, sharing the lambda coordinate
     pub points: Vec<Vec<Vec<f64>>>,
@@ -72,8 +75,22 @@ pub fn world() -> World {
         script.push((0..n as u64).map(|i| ((i.wrapping_mul(0x9E37_79B9_7F4A_7C15u64.wrapping_mul(i + 1))) | 1 << 62) & !(0x7ff) & !(1u64 << 63)).collect::<Vec<u64>>());
         points.push(ps);
     }
-    let kins = vec![ca.base_kin(), cb.base_kin()];
-    World { cases: vec![ca, cb], kins, points, script }
+    // C: two triangles sharing an edge with unequal, non-dyadic weights (any accumulation in hash order shows in the last bits)
+    let gc = mk(&kite(), &[false; 5], &[0.7, 0.9, 0.8, 1.1, 0.6], &[0, 3], 3);
+    let cc = Case::new(&CaseSpec { g: gc, mom_variant: 0, mass_variant: 0, label: "C".into() }).expect("C admissible");
+    {
+        let mut x = sector_defaults(&cc, &[2, 0, 4, 1, 3]);
+        x[3] = 0.125;
+        points.push(vec![x.clone(), x]);
+        script.push(vec![1u64 << 62; 64]);
+    }
+    let ga2 = mk(&[(0, 1), (1, 2), (2, 0)], &[false, false, false], &[0.75; 3], &[0, 1, 2], 3);
+    let gb2 = mk(&kite(), &[false, true, false, false, false], &[1.25; 5], &[0, 3], 4);
+    let ca2 = Case::new(&CaseSpec { g: ga2, mom_variant: 0, mass_variant: 0, label: "A'".into() }).expect("A' admissible");
+    let cb2 = Case::new(&CaseSpec { g: gb2, mom_variant: 1, mass_variant: 0, label: "B'".into() }).expect("B' admissible");
+    let alt_kins = vec![ca2.base_kin(), cb2.base_kin()];
+    let kins = vec![ca.base_kin(), cb.base_kin(), cc.base_kin()];
+    World { cases: vec![ca, cb, cc], alt_cases: vec![ca2, cb2], alt_kins, kins, points, script }
 }
 
 pub const SETTINGS8: [Settings; 8] = [
@@ -95,6 +112,9 @@ pub enum Op {
     GetDim { s: usize },
     Json { s: usize },
     Cbor { s: usize },
+    /// the sampler variable is reassigned: a different sampler with the same number of edges is built into the same
+    /// place, sampled, and the original is built back into that place
+    Rebuild { s: usize },
 }
 
 pub fn op_alphabet() -> Vec<Op> {
@@ -110,12 +130,17 @@ pub fn op_alphabet() -> Vec<Op> {
         v.push(Op::GetDim { s });
         v.push(Op::Json { s });
         v.push(Op::Cbor { s });
+        v.push(Op::Rebuild { s });
     }
     v
 }
 
 fn fresh(w: &World) -> Vec<Routed> {
     (0..2).map(|i| route(&w.cases[i], &w.kins[i]).expect("history sampler builds")).collect()
+}
+
+fn fresh3(w: &World) -> Vec<Routed> {
+    (0..3).map(|i| route(&w.cases[i], &w.kins[i]).expect("history sampler builds")).collect()
 }
 
 /// observable result of one operation as a bit vector (plus the number of rng draws for FromRng)
@@ -151,6 +176,16 @@ pub fn apply(w: &World, rs: &mut Vec<Routed>, op: Op) -> Vec<u64> {
                 Err(e) => vec![u64::MAX, fnv(&e)],
             }
         }
+        Op::Rebuild { s } => {
+            // in-place replacement: the new sampler occupies the memory of the old one
+            rs[s] = route(&w.alt_cases[s], &w.alt_kins[s]).expect("alt sampler builds");
+            let out = match outcome_bits(&rs[s].sampler.sample(&w.points[s][1], &rs[s].ed, &Settings::META)) {
+                Ok(b) => b,
+                Err(e) => vec![u64::MAX, fnv(&e)],
+            };
+            rs[s] = route(&w.cases[s], &w.kins[s]).expect("history sampler builds");
+            out
+        }
         Op::Cbor { s } => {
             let b = rs[s].sampler.to_cbor();
             match Sampler::from_cbor(w.cases[s].g.dim, &b) {
@@ -185,10 +220,17 @@ pub fn digest_of_reference() -> u64 {
             h = h.wrapping_mul(0x100000001b3);
         }
     }
-    // plus the serialisations
-    for r in fresh(&w) {
+    // plus the serialisations and a sample of the third sampler (unequal non-dyadic weights)
+    for r in fresh3(&w) {
         h ^= fnv(&r.sampler.to_json_string());
         h = h.wrapping_mul(0x100000001b3);
+    }
+    let r3 = fresh3(&w);
+    if let Ok(b) = outcome_bits(&r3[2].sampler.sample(&w.points[2][0], &r3[2].ed, &Settings::META)) {
+        for x in b {
+            h ^= x;
+            h = h.wrapping_mul(0x100000001b3);
+        }
     }
     h
 }
@@ -362,6 +404,31 @@ pub fn run_hash_orders(acc: &mut Acc) {
     let w = world();
     let alpha = op_alphabet();
     let refs = reference(&w);
+    // third sampler: fingerprint of the built table and a sample under every order
+    {
+        set_hash_order(None);
+        let base = fresh3(&w);
+        let fp0 = base[2].sampler.to_json_string();
+        let s0 = outcome_bits(&base[2].sampler.sample(&w.points[2][0], &base[2].ed, &Settings::META));
+        for p in all_permutations(w.cases[2].g.ne()) {
+            let mut perm: Vec<u64> = (0..256u64).map(|k| k + 1000).collect();
+            for (k, &v) in p.iter().enumerate() {
+                perm[k] = v as u64;
+            }
+            set_hash_order(Some(perm));
+            let r = route(&w.cases[2], &w.kins[2]);
+            set_hash_order(None);
+            acc.inc("hash_order_calls");
+            let ok = match &r {
+                Ok(r) => r.sampler.to_json_string() == fp0 && outcome_bits(&r.sampler.sample(&w.points[2][0], &r.ed, &Settings::META)) == s0,
+                Err(_) => false,
+            };
+            if !ok {
+                acc.violate(format!("C17/hash-order/2/{:?}", p), "results do not depend on the process (hash seeds)", format!("sampler with unequal non-dyadic weights built under hash order {p:?} differs (table or sample) from the production-hasher build"), json!({"engine": "history", "ops": [], "hash_order": p, "third": true}));
+                break;
+            }
+        }
+    }
     for s in 0..2 {
         let ne = w.cases[s].g.ne();
         for p in all_permutations(ne) {
@@ -434,14 +501,14 @@ pub fn run_c17(ctx: &Ctx) -> i32 {
     extra.insert("source_scan_global_state_candidates(assumption only)".into(), json!(scan));
     let fin = Finish {
         level: "model_checking",
-        rule: format!("(histories) all sequences up to depth {} over a 42-operation alphabet on two samplers (sample x 8 settings x 2 points, from_rng with a scripted RngCore, clone, get_dimension, JSON and CBOR round trips), each re-executed on freshly built samplers and compared bit-for-bit with the same call made first on a fresh sampler, serialisations compared after every step; (schedules) all interleavings of 2-3 real OS threads sharing a sampler with at most p preemptions, scheduling points = every scalar operation, under an own baton scheduler with DFS over schedules, a planted impurity must be caught first; (configurations) all E! hash iteration orders; child processes. states = histories + schedules, transitions = operations + scheduling decisions", ctx.tier.pick(3, 4)),
+        rule: format!("(histories) all sequences up to depth {} over a 44-operation alphabet on two samplers (sample x 8 settings x 2 points, from_rng with a scripted RngCore, clone, get_dimension, JSON and CBOR round trips, in-place rebuild of a different sampler with the same edge count), each re-executed on freshly built samplers and compared bit-for-bit with the same call made first on a fresh sampler, serialisations compared after every step; (schedules) all interleavings of 2-3 real OS threads sharing a sampler with at most p preemptions, scheduling points = every scalar operation, under an own baton scheduler with DFS over schedules, a planted impurity must be caught first; (configurations) all E! hash iteration orders; child processes. states = histories + schedules, transitions = operations + scheduling decisions", ctx.tier.pick(3, 4)),
         states: acc.get("histories") + acc.get("schedules"),
         transitions: acc.get("operations") + acc.get("schedules"),
         traces: acc.get("histories") + acc.get("schedules"),
         evaluations: acc.get("histories") + acc.get("schedules"),
         distinct_nontrivial: acc.get("histories") + acc.get("schedules"),
         exhaustive: acc.get("schedule_cap_hit") == 0,
-        bounds: json!({"history_depth": ctx.tier.pick(3, 4), "operation_alphabet": 42, "preemption_bounds": acc.hist.get("preemption_bound_completed"), "threads": "2 (thorough: also 3)"}),
+        bounds: json!({"history_depth": ctx.tier.pick(3, 4), "operation_alphabet": 44, "preemption_bounds": acc.hist.get("preemption_bound_completed"), "threads": "2 (thorough: also 3)"}),
         assumptions: vec![
             "preemption happens only at scalar-operation boundaries of the generic code; non-generic f64 code (Gamma quantile, component search) has no scheduling points and no shared state today (source scan reported in coverage, as an assumption)".into(),
         ],
@@ -484,11 +551,35 @@ pub fn replay_history(_ctx: &Ctx, case: &Value) -> i32 {
 // C18
 // =====================================================================================================
 
+/// E x max(L,1) signature with one unit entry per loop column: L matrix = diag(x_0..x_{L-1}), always decomposable
+fn ident_sig(g: &oracle::graph::OGraph) -> Vec<Vec<isize>> {
+    let l = g.loop_number(g.full()).max(1);
+    (0..g.ne()).map(|e| (0..l).map(|c| (e == c) as isize).collect()).collect()
+}
+
+/// differential sample (no oracle needed): original vs restored sampler at a fixed point, any accepted graph incl.
+/// disconnected ones
+fn c18_sample_bits(g: &oracle::graph::OGraph, s: &Sampler) -> Option<Result<Vec<u64>, String>> {
+    if g.loop_number(g.full()) == 0 {
+        return None;
+    }
+    let dim = s.get_dimension().ok()?;
+    let mut x = vec![0.5; dim];
+    for i in (0..dim).step_by(3) {
+        x[i] = 0.3;
+    }
+    let ed: EdgeData<f64> = (0..g.ne())
+        .map(|e| (if g.massive[e] { Some(1.0) } else { None }, (0..g.dim).map(|c| if e == 0 { 0.5 + c as f64 } else { 0.0 }).collect()))
+        .collect();
+    Some(outcome_bits(&s.sample(&x, &ed, &Settings::META)))
+}
+
 fn c18_graph(g: &oracle::graph::OGraph, acc: &mut Acc) -> Option<Sampler> {
-    let s = match build(g, &dummy_sig(g)) {
+    let s = match build(g, &ident_sig(g)) {
         BuildOutcome::Ok(s) => s,
         _ => return None,
     };
+    let sample0 = c18_sample_bits(g, &s);
     acc.inc("samplers");
     let key = |c: &str| format!("C18/{c}/{:016x}", fnv(&graph_json(g).to_string()));
     let case = || json!({"engine": "c18", "graph": graph_json(g)});
@@ -504,6 +595,12 @@ fn c18_graph(g: &oracle::graph::OGraph, acc: &mut Acc) -> Option<Sampler> {
             }
             if s2.get_dimension() != s.get_dimension() || s2.get_dod().to_bits() != s.get_dod().to_bits() || s2.edge_weights().iter().map(|w| w.to_bits()).collect::<Vec<_>>() != s.edge_weights().iter().map(|w| w.to_bits()).collect::<Vec<_>>() || s2.get_num_edges() != s.get_num_edges() {
                 acc.violate(key("cbor-accessors"), "same dimension, dod, weights", "accessors differ after CBOR round trip".into(), case());
+            }
+            if sample0.is_some() {
+                acc.inc("restored_samples_compared");
+                if c18_sample_bits(g, &s2) != sample0 {
+                    acc.violate(key("cbor-sample"), "restored sampler produces bit-identical samples", "a sample from the sampler restored through CBOR differs".into(), case());
+                }
             }
         }
         Err(e) => {
@@ -523,6 +620,12 @@ fn c18_graph(g: &oracle::graph::OGraph, acc: &mut Acc) -> Option<Sampler> {
                 }
                 if s2.get_dimension() != s.get_dimension() || s2.get_dod().to_bits() != s.get_dod().to_bits() {
                     acc.violate(key("json-accessors"), "same dimension, dod", "accessors differ after JSON round trip".into(), case());
+                }
+                if sample0.is_some() {
+                    acc.inc("restored_samples_compared");
+                    if c18_sample_bits(g, &s2) != sample0 {
+                        acc.violate(key("json-sample"), "restored sampler produces bit-identical samples", "a sample from the sampler restored through JSON differs".into(), case());
+                    }
                 }
             }
             Err(e) => {
@@ -547,8 +650,12 @@ pub fn run_c18(ctx: &Ctx) -> i32 {
     let mut acc = par_for(shapes.len(), |i, acc| {
         let shape = &shapes[i];
         let ne = shape.len();
-        let alpha: Vec<f64> = tier.pick(vec![1.0, 2.0 / 3.0], W3.to_vec());
+        // numerically generic values matter here (a lossy text rendering shows only on numbers that need all 17 digits)
+        let alpha: Vec<f64> = if ne <= 2 { W6.to_vec() } else { tier.pick(vec![1.0, 2.0 / 3.0, 0.51], vec![0.5, 1.0, 2.0 / 3.0, 0.66, 0.51]) };
         let mut was = weight_assignments(&alpha, ne);
+        was.push((0..ne).map(|e| 0.51 + 0.01 * e as f64).collect());
+        was.push((0..ne).map(|e| [1.2, 0.52, 0.51][e % 3]).collect());
+        was.push(vec![6.0; ne]);
         for massive in mass_patterns(ne) {
             for e in &ext {
                 for d in tier.pick(vec![3usize, 4], vec![1, 2, 3, 4, 5, 6]) {
@@ -569,7 +676,7 @@ pub fn run_c18(ctx: &Ctx) -> i32 {
         c.extend(dl_grid_cases().into_iter().filter(|c| c.g.loop_number(c.g.full()) <= 3));
         c
     };
-    let roles = Roles { u: true, xi: true, p: true, ab: true, xi_moderate: true };
+    let roles = Roles { u: true, xi: true, p: true, ab: true, xi_moderate: true, xi_ladder: false };
     let acc2 = par_for(cases.len(), |i, acc| {
         let case = match Case::new(&cases[i]) {
             Some(c) => c,
@@ -621,7 +728,7 @@ pub fn run_c18(ctx: &Ctx) -> i32 {
     }
     let fin = Finish {
         level: "model_checking",
-        rule: "every accepted configuration of G-small (E<=3) is serialised and restored through JSON (float_roundtrip parser; only when every table value is finite) and CBOR: re-serialisation byte-identical, table and accessors identical; for every admissible configuration of the sampling family the restored samplers (JSON, CBOR, CBOR then JSON) are sampled on the whole 1-deviation answer set of 6 sectors with metadata on and compared bit-for-bit; states = samplers round-tripped, transitions = restored samples compared".into(),
+        rule: "every accepted configuration of G-small (E<=3) is serialised and restored through JSON (float_roundtrip parser; only when every table value is finite) and CBOR: re-serialisation byte-identical, table and accessors identical, and one differential sample (identity-like signature, so disconnected graphs are included) bit-identical; for every admissible configuration of the sampling family the restored samplers (JSON, CBOR, CBOR then JSON) are sampled on the whole 1-deviation answer set of 6 sectors with metadata on and compared bit-for-bit; states = samplers round-tripped, transitions = restored samples compared".into(),
         states: acc.get("samplers"),
         transitions: acc.get("restored_samples_compared"),
         traces: acc.get("restored_samples_compared"),
